@@ -3,7 +3,7 @@ Grammar-based generator of valid multi-file manifests (shadowing at every scope 
 all $-escapes, continuations, CRLF, nested include/subninja, pools, defaults, dyndep bindings, validations,
 implicit outputs, legacy phony self-references) plus single-token mutations; differential against the reference
 evaluator M-manifest (verif/mref.py): accept/reject agree, full graph dump equal, file:line of diagnostics equal."""
-import json, re, traceback
+import json, os, re, traceback
 from hypothesis import given, settings, seed as hseed, HealthCheck, Phase, Verbosity, strategies as st
 from .. import common, mref
 from ..probe import Probe, ProbeDied
@@ -281,6 +281,19 @@ def replay_case(case):
     return None
 
 
+def replay_regressions(ck):
+    """saved shrunk cases (regress/*_C12_*.json) are re-executed first; a failing one means a repaired defect came back"""
+    import glob
+    n = 0
+    for path in sorted(glob.glob(os.path.join(common.VERIF, 'regress', '*_C12_*.json'))):
+        case = json.load(open(path))['case']
+        n += 1
+        why = replay_case(case)
+        if why:
+            ck.violation(case, "regression file %s: %s" % (os.path.basename(path), why if isinstance(why, str) else 'violation'))
+    ck.extra_cov['regression_cases_replayed'] = n
+
+
 def run(tier):
     ck = common.Check(PROP, tier, "exploration",
                       "grammar-generated multi-file manifests (1-7 statements per file, include/subninja nested <=2, variables from a pool that contains the "
@@ -292,6 +305,7 @@ def run(tier):
                       ["manifests are valid UTF-8 (they travel through JSON); bytes >= 0x80 occur only as well-formed sequences",
                        "a rule variable that refers to a file-level variable sees the value at the time the command is evaluated (the manual leaves the timing open; the reference follows ninja there)"])
     n = 400000 if tier == "thorough" else 14000
+    replay_regressions(ck)
     res = common.run_workers(worker, [(w, max(1, n // common.NCPU)) for w in range(common.NCPU)])
     ck.merge(res)
     for f in res.failures:
